@@ -10,6 +10,7 @@ import (
 
 	"github.com/anoideaopen/foundation/core/balance"
 	fpb "github.com/anoideaopen/foundation/proto"
+	"github.com/anoideaopen/foundation/token"
 	"github.com/golang/protobuf/proto" //nolint:staticcheck
 )
 
@@ -41,10 +42,173 @@ func genC17(c *Ctx) error {
 	c.Notes["rule"] = "one token chaincode instance; 2-3 invocations, each on its own goroutine with its own simulated transaction: an immediate method, batchExecute with one or two pending transactions, swapDone whose completion listener runs with the context swapDone installed; every body re-obtains its context (GetStub) 1-3 times, reads its own previous write and writes a key, and is parked before each of these points; a scheduler releases the parked invocations in a random order (all interleavings of the switch points are reachable, nested and overlapping lifetimes). Observed per invocation: status, payload, complete write-set, event - compared with the same proposal run alone over the same committed state - and the keys that landed in its write-set. Non-trivial: the lifetimes of at least two invocations overlap."
 	n := c.N(150, 3000)
 	for i := 0; i < n; i++ {
+		if i%5 == 4 {
+			if err := c17Meta(c); err != nil {
+				return err
+			}
+			continue
+		}
 		if err := c17Case(c); err != nil {
 			return err
 		}
 	}
+	return nil
+}
+
+// c17Meta: two or three metadata operations of the token (each sets one setting) on one instance,
+// switched at the point where the metadata has been loaded into the contract object (hook).
+func c17Meta(c *Ctx) error {
+	rng := c.Rng
+	w := NewWorld()
+	if _, err := w.AddToken("TT", ChanOpts{}); err != nil {
+		return err
+	}
+	fa := w.NewAccount(fpb.KeyType_ed25519)
+	nonce := uint64(1700000000000)
+	type mop struct {
+		bit  int
+		acc  *Account
+		fn   string
+		args []string
+	}
+	menu := []mop{{2, w.Issuer, "setRate", []string{"buyToken", "CURA", "5"}}, {3, w.FeeSet, "setFeeAddress", []string{fa.AddrString()}}, {4, w.Issuer, "setRate", []string{"buyBack", "CURB", "7"}}}
+	rng.Shuffle(len(menu), func(a, b int) { menu[a], menu[b] = menu[b], menu[a] })
+	ops := menu[:2+rng.Intn(2)]
+	type inv struct {
+		args [][]byte
+		txID string
+	}
+	invs := make([]inv, len(ops))
+	for i, o := range ops {
+		nonce++
+		req := w.SignedArgs("tt", o.fn, o.acc, strconv.FormatUint(nonce, 10), o.args...)
+		data, _ := proto.Marshal(&fpb.ExecuteTasksRequest{Tasks: []*fpb.Task{{Id: w.Peer.NextTxID(), Method: o.fn, Args: req}}})
+		invs[i] = inv{strArgs("executeTasks", []string{string(data)}), w.Peer.NextTxID()}
+	}
+	seenBits := func(res *TxResult) []int {
+		var bits []int
+		for _, wr := range res.Writes {
+			if wr.Key != "tokenMetadata" {
+				continue
+			}
+			var m fpb.Token
+			if proto.Unmarshal(wr.Value, &m) != nil {
+				continue
+			}
+			for _, r := range m.GetRates() {
+				if r.GetCurrency() == "CURA" {
+					bits = append(bits, 2)
+				}
+				if r.GetCurrency() == "CURB" {
+					bits = append(bits, 4)
+				}
+			}
+			if len(m.GetFeeAddress()) > 0 {
+				bits = append(bits, 3)
+			}
+		}
+		sort.Ints(bits)
+		return bits
+	}
+	token.VerifAfterLoad = nil
+	solo := make([]uint64, len(invs))
+	for i, iv := range invs {
+		res, _ := w.Peer.Simulate("tt", iv.txID, w.Robot.Creator, false, iv.args)
+		solo[i] = resDigest(res)
+	}
+	arrive := make(chan int)
+	release := make([]chan struct{}, len(invs))
+	for i := range release {
+		release[i] = make(chan struct{})
+	}
+	current := -1
+	token.VerifAfterLoad = func() {
+		i := current
+		arrive <- i
+		<-release[i]
+	}
+	defer func() { token.VerifAfterLoad = nil }()
+	type doneMsg struct {
+		i   int
+		res *TxResult
+	}
+	done := make(chan doneMsg)
+	results := make([]*TxResult, len(invs))
+	state := make([]int, len(invs))
+	loads := make([]int, len(invs))
+	var schedule []string
+	settle := func(i int) {
+		select {
+		case j := <-arrive:
+			if j != i {
+				panic("switch point of another invocation")
+			}
+			state[i] = 1
+			loads[i]++
+		case d := <-done:
+			results[d.i], state[d.i] = d.res, 2
+		}
+	}
+	overlap := false
+	for {
+		var cand []int
+		for i := range invs {
+			if state[i] != 2 {
+				cand = append(cand, i)
+			}
+		}
+		if len(cand) == 0 {
+			break
+		}
+		i := cand[rng.Intn(len(cand))]
+		for j := range invs {
+			if j != i && state[j] == 1 {
+				overlap = true
+			}
+		}
+		current = i
+		if state[i] == 0 {
+			go func(i int) {
+				res, _ := w.Peer.Simulate("tt", invs[i].txID, w.Robot.Creator, false, invs[i].args)
+				done <- doneMsg{i, res}
+			}(i)
+			schedule = append(schedule, strconv.Itoa(i)) // MLoad
+			settle(i)
+			continue
+		}
+		release[i] <- struct{}{}
+		settle(i)
+		if state[i] == 2 {
+			schedule = append(schedule, strconv.Itoa(i), strconv.Itoa(i)) // MMut, MSave
+		} else {
+			return fmt.Errorf("a metadata operation loaded the metadata %d times; the model assumes once", loads[i])
+		}
+	}
+	var bits, obs []string
+	leaked := false
+	for i, o := range ops {
+		bits = append(bits, strconv.Itoa(o.bit))
+		sb := seenBits(results[i])
+		var sk []string
+		for _, b := range sb {
+			sk = append(sk, strconv.Itoa(b))
+		}
+		if len(sb) != 1 {
+			leaked = true
+		}
+		obs = append(obs, fmt.Sprintf("(%s, %d, %d)", coqList(sk), resDigest(results[i]), solo[i]))
+	}
+	term := fmt.Sprintf("MCase %s %s %s", coqList(bits), "["+strings.Join(schedule, "; ")+"]%nat", coqList(obs))
+	desc := map[string]interface{}{"kind": "metadata", "ops": len(ops), "schedule": schedule, "overlap": overlap}
+	if overlap {
+		desc["classes"] = []string{"shared_metadata_object"}
+		c.Count("meta_overlapping")
+	}
+	if leaked {
+		c.Count("meta_leaked")
+	}
+	c.Emit(term, desc, overlap)
+	c.Count("meta_case")
 	return nil
 }
 
